@@ -125,6 +125,7 @@ class _ExecutorWrapper[**Args, Result]:
 
     async def __call__(
         self,
+        /,
         *args: Args.args,
         **kwargs: Args.kwargs,
     ) -> Result:
@@ -156,6 +157,7 @@ class _ExecutorWrapper[**Args, Result]:
     async def __method_call__(
         self,
         __method_self: object,
+        /,
         *args: Args.args,
         **kwargs: Args.kwargs,
     ) -> Result:
